@@ -993,7 +993,15 @@ def check_bounds(ctx):
         ])
 
 
+def check_extent_len(ctx):
+    """the documented layout pads a record to ceil(total_size / FEOX_BLOCK_SIZE) blocks; the token is computed over exactly that
+    extent, so writer, reader, recovery and retirement must derive the extent length the same way (shared with C05.len)"""
+    from rules import C05
+    C05.check_len(ctx, "C10.extent-len")
+
+
 def check(ctx):
+    check_extent_len(ctx)
     check_bounds(ctx)
     check_consts(ctx)
     check_record(ctx)
